@@ -10,14 +10,15 @@ type ActorCfg struct {
 
 // Config is the swarm draw of one engine-B run.
 type Config struct {
-	Colls   int             `json:"colls"`
-	Actors  []ActorCfg      `json:"actors"`
-	Oracles map[string]bool `json:"oracles"`
-	Faults  map[string]bool `json:"faults,omitempty"`   // enabled fault kinds (informational; the events carry them)
-	HoldPub bool            `json:"hold_pub,omitempty"` // a server's publish waits for the simulator (notification goroutines overtake each other)
-	Yields  bool            `json:"yields,omitempty"`   // the scheduling points inserted into the server copy are seams (C12)
-	Observe bool            `json:"observe,omitempty"`  // report plain end-of-run observations (scenario demonstrations)
-	Count   bool            `json:"count,omitempty"`    // report the database commands issued per exchange event (base scenarios of the systematic placement)
+	Colls     int             `json:"colls"`
+	Actors    []ActorCfg      `json:"actors"`
+	Oracles   map[string]bool `json:"oracles"`
+	Faults    map[string]bool `json:"faults,omitempty"`     // enabled fault kinds (informational; the events carry them)
+	HoldPub   bool            `json:"hold_pub,omitempty"`   // a server's publish waits for the simulator (notification goroutines overtake each other)
+	Yields    bool            `json:"yields,omitempty"`     // the scheduling points inserted into the server copy are seams (C12)
+	PackOrder bool            `json:"pack_order,omitempty"` // the order of the packs in a request and in an answer is a seeded choice (the client fills a request while ranging over a Go map, the server collects answers as they come)
+	Observe   bool            `json:"observe,omitempty"`    // report plain end-of-run observations (scenario demonstrations)
+	Count     bool            `json:"count,omitempty"`      // report the database commands issued per exchange event (base scenarios of the systematic placement)
 }
 
 // MongoFault places a fault on the k-th database command issued while serving an exchange.
@@ -44,7 +45,9 @@ type Ev struct {
 	MF    []MongoFault  `json:"mf,omitempty"`
 	Post  string        `json:"post,omitempty"` // sync: "" (run background work now) | lag (leave it pending)
 	Par   []int         `json:"par,omitempty"`
-	Dur   int64         `json:"dur,omitempty"` // advance: milliseconds
+	Rd    int           `json:"rd,omitempty"`   // sync/par: the read-only observer pulls at the same moment
+	Late  []int         `json:"late,omitempty"` // sync/par: actors whose Sync starts 5.05 s into the first slow database command (just after the lock leases of the waiting requests ran out)
+	Dur   int64         `json:"dur,omitempty"`  // advance: milliseconds
 	Body  []Ev          `json:"body,omitempty"`
 	Fail  bool          `json:"fail,omitempty"`
 	S     uint64        `json:"s,omitempty"`
